@@ -30,7 +30,7 @@ META = {
         "fermionic_core.FermionicArray.unfuse",
     ],
     "floors": {
-        "quick": {"evaluations": 4000, "distinct_nontrivial": 500, "tables": {"strategy/insert": 1000, "strategy/concat": 1000, "kind/fermionic": 500, "roundtrip": 2000, "hook/plan-compared": 2000, "feature/nested": 50, "feature/single-axis-group": 300, "feature/conj-of-fused-before": 300, "feature/empty-group": 1000}},
+        "quick": {"evaluations": 4000, "distinct_nontrivial": 500, "tables": {"strategy/insert": 1000, "strategy/concat": 1000, "kind/fermionic": 500, "roundtrip": 2000, "hook/plan-compared": 2000, "feature/nested": 50, "feature/single-axis-group": 300, "feature/conj-of-fused-before": 300, "feature/empty-group": 1000, "feature/signed-zeros": 500}},
         "thorough": {"evaluations": 300000, "distinct_nontrivial": 30000, "tables": {"strategy/concat": 50000, "kind/fermionic": 30000, "feature/nested": 3000}},
     },
     "wall": {"quick": 100, "thorough": 1700},
@@ -164,6 +164,9 @@ def judge_fuse(ctx, x, groups, res, wit, tag):
             bad("fuse-slice-shape", f"block {sec}: slice shape {got.shape} != {moved.shape}")
             return False
         same = np.array_equal(got, moved)
+        if same and not ferm and np.ascontiguousarray(got).tobytes() != np.ascontiguousarray(moved).tobytes():
+            bad("fuse-not-bit-exact", f"block {sec} -> sector {new_sec}: equal as numbers but not bit for bit (sign of a zero changed)")
+            return False
         if not same and ferm and np.array_equal(got, -moved):
             same = True
         if not same:
@@ -246,6 +249,9 @@ def _same_as_original(ctx, x, y, wit, tag):
         if not np.array_equal(np.asarray(b) * px.get(sec, 1), np.asarray(y.blocks[sec]) * py.get(sec, 1)):
             ctx.violation("roundtrip-value", f"{tag}: block {sec} not restored bit for bit", wit)
             return
+        if not is_fermionic(x) and np.ascontiguousarray(np.asarray(b)).tobytes() != np.ascontiguousarray(np.asarray(y.blocks[sec])).tobytes():
+            ctx.violation("roundtrip-not-bit-exact", f"{tag}: block {sec} restored as equal numbers but not bit for bit (sign of a zero changed)", wit)
+            return
     for sec, b in y.blocks.items():
         if sec not in x.blocks and np.any(np.asarray(b) != 0):
             ctx.violation("roundtrip-extra-block", f"{tag}: extra non-zero block {sec}", wit)
@@ -253,7 +259,8 @@ def _same_as_original(ctx, x, y, wit, tag):
 
 
 def same_result(r1, r2):
-    """insert == concat: same indices, same block keys (as sets), same bytes."""
+    """insert == concat: same indices, same block keys (as sets), same bytes (snapshots hold
+    the raw bytes of every block, so signed zeros count)."""
     s1, s2 = snapshot(r1), snapshot(r2)
     if s1[:5] != s2[:5] or s1[6:] != s2[6:]:
         return False
@@ -339,7 +346,9 @@ def case_structure(ctx, hooks, rng):
     charge = gen.pick_charge(rng, sym, idx)
     secs = gen.all_sectors(sym, idx, charge)
     cls, extra, kind = gen.pick_class(sr, rng, sym, ferm)
-    vals = gen.Values(rng, "unique", rng.choice(["float64", "float64", "complex128"]))
+    vals = gen.Values(rng, "signedzero" if (not ferm and rng.random() < 0.3) else "unique", rng.choice(["float64", "float64", "complex128"]))
+    if vals.mode == "signedzero":
+        feature.append("signed-zeros")
     subsets = sparsity_subsets(rng, secs)
     gsets = groupings(rng, nd, ctx.n(4, 12))
     nsub = ctx.n(6, 64)
